@@ -11,7 +11,7 @@ import logging
 
 import kopf
 import vkopf
-from vkopf.driver_api import Ob, split
+from vkopf.driver_api import Ob, split, sample
 from vkopf.symloop import SymLoop, Deadlock, Diverged, Livelock
 from vkopf.world import make_resource, PLURAL, base_body
 
@@ -249,8 +249,8 @@ def obligations():
                       timeout=900))
     obs.append(Ob('h_activity', {'len': 2, 'pin': {'a0': 1, 'b0': 2}}, tiers=('quick', 'thorough'), timeout=300, twins=['retried', 'activity_failed'],
                   main=False))
-    obs += split(Ob('h_activity', {'len': 2}, tiers=('thorough',), timeout=1800), a0=[0, 1, 2, 3], b0=[1, 2], a1=[0, 1, 2, 3], b1=[0, 1, 2],
-                 has_la=[False, True])
-    obs += split(Ob('h_activity', {'len': 3, 'pin': {'has_lb': False}}, tiers=('thorough',), timeout=1800), a0=[1, 2], b0=[1, 2], a1=[1, 2], b1=[1, 2],
-                 a2=[0, 1, 3], b2=[0, 2])
+    obs += sample(Ob('h_activity', {'len': 2}, tiers=('thorough',), timeout=900), 64, seed=111, a0=[0, 1, 2, 3], b0=[1, 2], a1=[0, 1, 2, 3], b1=[0, 1, 2],
+                  has_la=[False, True], has_lb=[False, True])
+    obs += sample(Ob('h_activity', {'len': 3, 'pin': {'has_lb': False}}, tiers=('thorough',), timeout=900), 24, seed=112, a0=[1, 2], b0=[1, 2], a1=[1, 2],
+                  b1=[1, 2], a2=[0, 1, 3], b2=[0, 2], has_la=[False, True])
     return obs
